@@ -20,7 +20,11 @@ META = {
             "model builds and delivers), C05_repeated_use (any sequence of communications), C05_communicator_history / C05_interface_history "
             "(build/free/strip/communicate histories), C05_buffer_layout (offset intervals disjoint, ascending, exact size), "
             "C05_datatype_delivery/_equals_buffered_copy/_requests (DatatypeCommunicator incl. the literal request lists), "
-            "C05_source_matches_model / C05_tags_disjoint (28 code shapes and 6 constants re-read from the source on every run). "
+            "C05_source_matches_model / C05_tags_disjoint (33 code shapes and 6 constants re-read from the source on every run); "
+            "C05_interface_communicator_history / _after_build, C05_communicator_communicator_history, C05_datatype_communicator_history, "
+            "C05_same_communicator_routing, C05_object_history_delivery (round 6: communicators as rank->process lists; whatever communicator an "
+            "Interface / BufferedCommunicator / DatatypeCommunicator object carried in an earlier life, after build() it carries the one of what it "
+            "was built from and the messages reach the processes the rank-level theorems speak about), C05_stale_communicator_misroutes. "
             "The model is tied to the tree on every run by an MPI harness (1..4 ranks quick, 1..6 thorough) over generated overlapping "
             "decompositions, all 144 pairs of 12 flag-set types, one and two index sets, SizeOne and variable-size payloads, copying and "
             "accumulating recording gather/scatter policies, forward/backward/forward on one communicator, seeded Waitany orders.",
@@ -130,9 +134,13 @@ def gen_one(rng, P, n, fixed_pair=None, rebuild_ok=True):
     elif not two and rng.random() < 0.3: c["pol"] += 16  # one index set, one container passed as source AND as target
     if rng.random() < 0.4: c["pol"] += 32                # communicator with the reversed rank order of MPI_COMM_WORLD
     if rng.random() < 0.25: c["pol"] += 64               # copies of Interface and BufferedCommunicator do the work
+    # round 6, OBJECT HISTORY x COMMUNICATOR: earlier lives of the objects on the communicator with the opposite rank order
+    if rng.random() < 0.2: c["pol"] += 128               # Interface(OTHER) constructor, then build from remote indices on the case's communicator
+    if rng.random() < 0.25: c["pol"] += 256              # Interface built from remote indices on OTHER, free(), build
+    if rng.random() < 0.35: c["pol"] += 512              # earlier build of BufferedCommunicator (mode +4/+8) / DatatypeCommunicator on OTHER
     z = rng.random()
-    if z < 0.08: c["mode"] += 8                       # build(), free(), build()
-    elif z < 0.20 and rebuild_ok: c["mode"] += 4      # build(), build()  (only while the tree survives the F-C05-1 witnesses)
+    if z < (0.3 if c["pol"] & 512 else 0.08): c["mode"] += 8                       # build(), free(), build()
+    elif z < (0.6 if c["pol"] & 512 else 0.20) and rebuild_ok: c["mode"] += 4      # build(), build()  (only while the tree survives the F-C05-1 witnesses)
     if fixed_pair is not None:
         c["src"], c["dst"] = fixed_pair
     else:
@@ -167,7 +175,7 @@ def corpus_cases():
 
 # --------------------------------------------------------------------------- observations
 
-FIELD = re.compile(r"(RI|IF|SE|SD|EQ|ST|CP|DT|P\d)\[([^\]]*)\]")
+FIELD = re.compile(r"(RI|IF|SE|SD|EQ|ST|CP|CM|DT|P\d)\[([^\]]*)\]")
 
 
 def parse_obs(line):
@@ -267,6 +275,9 @@ def oracle(case, impl_line, spec_line):
         if a.get("EQ") != s.get("EQ"):
             add_side("ifaceeq", "rank %d: Interface ==/!=/<</free+build observations [%s] (same flags / exchanged flags / != negates / printing / "
                                "rebuilt after free), equality of the interface maps gives [%s]" % (p, a.get("EQ"), s.get("EQ")))
+        if a.get("CM") != s.get("CM"):
+            add_side("communicator", "rank %d: Interface::communicator() after build() is the communicator of the RemoteIndices it was built from "
+                                     "(the Interface of the communication / an Interface(other communicator), also after free()+build): CM[%s], required CM[%s]" % (p, a.get("CM"), s.get("CM")))
         if a.get("CP") != s.get("CP"):
             add_side("copies", "rank %d: copy-constructed / copy-assigned Interface differs from the original (CP[%s])" % (p, a.get("CP")))
         if a.get("ST") != s.get("ST"):
@@ -309,8 +320,8 @@ def diff_model(impl_line, model_line, spec_line, case=None):
         return ("public", "shape")
     deep = None
     for p, (a, m, s) in enumerate(zip(io, mo, so)):
-        for k in ("IF", "SE", "SD", "EQ", "ST", "CP"):
-            if k in ("SD", "EQ", "ST", "CP") and a.get(k) != s.get(k):
+        for k in ("IF", "SE", "SD", "EQ", "ST", "CP", "CM"):
+            if k in ("SD", "EQ", "ST", "CP", "CM") and a.get(k) != s.get(k):
                 continue                                  # already rejected by the oracle
             if a.get(k) != m.get(k):
                 return ("public", "rank %d %s: impl [%s] model [%s]" % (p, k, a.get(k), m.get(k)))
@@ -353,7 +364,7 @@ def diff_model(impl_line, model_line, spec_line, case=None):
 
 
 def sig_of(c, what):
-    if c["mode"] // 4 == 1 and what in ("crash", "hang") or (c["mode"] // 4 == 1 and what.startswith("delivery")):
+    if not (c["pol"] // 512) % 2 and (c["mode"] // 4 == 1 and what in ("crash", "hang") or (c["mode"] // 4 == 1 and what.startswith("delivery"))):
         return "C05:rebuild:%s" % what          # build() a second time without free() (F-C05-1)
     return "C05:%s:%s:%s:%s" % (what, "two" if c["two"] else "one", "var" if c["mode"] % 4 == 1 else "sizeone", "add" if c["pol"] % 2 else "copy")
 
@@ -370,6 +381,11 @@ def features(c, spec_line):
     if (c["pol"] // 16) % 2: f.add("aliased-arguments forward(d,d)")
     if (c["pol"] // 32) % 2: f.add("reversed-rank-communicator")
     if (c["pol"] // 64) % 2: f.add("copied Interface+BufferedCommunicator")
+    if c["P"] >= 2:
+        if (c["pol"] // 128) % 2: f.add("Interface(other communicator) then build")
+        if (c["pol"] // 256) % 2: f.add("Interface built on other communicator, free, build")
+        if (c["pol"] // 512) % 2 and c["mode"] // 4: f.add("BufferedCommunicator built before from an interface on the other communicator")
+        if (c["pol"] // 512) % 2 and (c["pol"] // 2) % 2: f.add("DatatypeCommunicator built before from remote indices on the other communicator")
     if c["two"] and all(sorted((e[0], e[2]) for e in r["S"]) == sorted((e[0], e[2]) for e in r["T"]) for r in c["ranks"]): f.add("two-sets-identical-content")
     if c["NG"] >= 24: f.add("large(NG>=24)")
     if any(r["capS"] == 0 or r.get("capT", 1) == 0 for r in c["ranks"]): f.add("empty-container")
@@ -583,7 +599,7 @@ def run(ctx):
         for f in features(c, spec): feats[f] = feats.get(f, 0) + 1
         if re.search(r"S:\d", spec): nontrivial.add(line)
         rs = oracle(c, a, spec)
-        SIDE = ("selection-default", "ifaceeq", "selftest", "copies")
+        SIDE = ("selection-default", "ifaceeq", "selftest", "copies", "communicator")
         for r in rs:
             nviol += 1
             per_what[r[0]] = per_what.get(r[0], 0) + 1
